@@ -555,15 +555,11 @@ func c03Cause(a, b cty.Value) (site, sig string) {
 				return c03SiteOrder, c03SigLessTied
 			}
 		}
-		// members that are Equals but hash differently
+		// a cause inside some pair of members (Equals-true numbers that hash
+		// differently, or a tie inside nested sets), at any depth
 		for _, x := range a.AsValueSlice() {
 			for _, y := range b.AsValueSlice() {
-				if c03EqualsTrue(x, y) && c03HashBytes(x) != c03HashBytes(y) {
-					if st, sg := c03Cause(x, y); st != "" {
-						return st, sg
-					}
-				}
-				if st, sg := c03Cause(x, y); st == c03SiteOrder {
+				if st, sg := c03Cause(x, y); st != "" {
 					return st, sg
 				}
 			}
@@ -934,6 +930,16 @@ func c03SetCase(ctx *Ctx, m *c03Mat, in []int, maxPerms int) {
 			sig = c03SigLessTied
 		} else if st, sg := c03Cause(b0.s, b.s); st != "" {
 			site, sig = st, sg
+		} else if vs[in[0]].Type() == cty.Number {
+			// two inputs that are Equals but not equal in value: whichever of them the set
+			// retains is placed by exact comparison, possibly on different sides of a third member
+			for _, i := range in {
+				for _, j := range in {
+					if m.eqT[i][j] && !m.isNl[i] && !m.isNl[j] && vs[i].AsBigFloat().Cmp(vs[j].AsBigFloat()) != 0 {
+						site, sig = "trichotomy", c03SigEqVsCmp
+					}
+				}
+			}
 		}
 		ctx.Fail(Failure{Site: site, Sig: sig,
 			What:  "two sets built from the same values in different insertion orders iterate differently / are not RawEquals (members that are not equivalent but that setRules.Less orders neither way keep their insertion order)",
@@ -972,9 +978,12 @@ func c03SetCases(ctx *Ctx, m *c03Mat, allPairs bool, nLarge int) {
 	for k := 0; k < nLarge; k++ {
 		sz := 3 + ctx.R.Intn(2)
 		maxP := ctx.N(6, 24)
-		if k == 0 && ctx.R.Intn(ctx.N(4, 1)) == 0 {
+		if k == 0 && (allPairs || ctx.R.Intn(ctx.N(4, 10)) == 0) {
 			sz = 5 + ctx.R.Intn(2)
-			maxP = ctx.N(6, 720)
+			maxP = ctx.N(6, 60)
+			if allPairs {
+				maxP = ctx.N(6, 720) // thorough, exhaustive-scope pools: every permutation of <= 6 inputs
+			}
 		}
 		in := make([]int, sz)
 		for i := range in {
